@@ -105,3 +105,8 @@ PROPS['C20'] = dict(
     unit_modules=[], driver_modules=['drivers.c20'], level='other',
     level_text='tbd', level_note='tbd', assumptions=COMMON_ASSUMPTIONS,
 )
+
+PROPS['C08'] = dict(
+    unit_modules=[], driver_modules=['drivers.c08'], level='other',
+    level_text='tbd', level_note='tbd', assumptions=COMMON_ASSUMPTIONS,
+)
